@@ -317,7 +317,9 @@ impl<'a> RecordView<'a> {
         let data_len = self.data.len();
         let header_len = self.header_len() as usize;
 
-        if data_len <= header_len {
+        // `==` is a complete record with an empty payload (no fixed-width columns and
+        // only empty or NULL variable-width values), not a record without columns.
+        if data_len < header_len {
             return 0;
         }
 
